@@ -32,7 +32,7 @@ m = {
     "hooks": {
         "guard": "cargo feature dswd_vpncloud_verif (#[cfg(feature = \"dswd_vpncloud_verif\")])",
         "enable": "the sources of /repo are compiled as a library by /verif/vpnlib (its [lib] path is /repo/src/main.rs) with feature dswd_vpncloud_verif in its default features; no RUSTFLAGS involved",
-        "baseline_off_cmd": "cd /repo && cargo test --workspace --no-fail-fast --offline",
+        "baseline_off_cmd": "cd /repo && cargo nextest run --workspace --no-fail-fast --tool-config-file pb:/w/lib/nextest.toml --profile pb --test-threads 8 --offline  (fallback: cargo test --workspace --no-fail-fast --offline); the guard is a cargo feature that is off by default, so the plain baseline command is the guard-off run",
         "source_commits": hooks_commits(),
         "add_only": True,
     },
